@@ -333,6 +333,26 @@ def rule_c(chk, prog, s, fs):
                 else:
                     chk.violation("C06.c", f"{fi.module}:{fi.qualname}", sto.text, "an undesignated function writes a seasonal irrigation counter", loc=fi.loc(sto.node))
     chk.floor("C06.c-writers", nw, 6, "stores to the seasonal counters")
+    # the net counter is cleared inside a season only when net irrigation is not the strategy: abstract interpretation of transpiration
+    # on the valuation (method = 4, growing season) - no constant store to irr_net_cum is reachable
+    from ..absint import Interp, Const as _Const
+    from ..flags import DOMAINS
+    from ..da import local_literal_domains
+    it = Interp(prog, tr, domains=DOMAINS, local_domains=local_literal_domains(tr), part_key="facts", maxp=32,
+                param_vals={f_m: _Const(4), f_gs: _Const(True)}).run()
+    chk.valuation("transpiration: irrigation_method=4, growing_season=True")
+    nclear = 0
+    for n in it.cfg.live_nodes():
+        a = n.ast
+        if isinstance(a, ast.Assign) and isinstance(a.targets[0], ast.Attribute) and a.targets[0].attr == "irr_net_cum" and isinstance(a.value, ast.Constant):
+            nclear += 1
+            if not it.in_states.get(n.id):
+                chk.ok("C06.c", f"{tr.module}:{tr.qualname}", norm(a) + f" #{nclear}", "unreachable in a net-irrigation season")
+            else:
+                chk.violation("C06.c", f"{tr.module}:{tr.qualname}", norm(a), "the seasonal net-irrigation counter is cleared on a day of a net-irrigation season "
+                              "(e.g. a day without potential transpiration): the seasonal total no longer equals the sum of the daily column",
+                              loc=tr.loc(a))
+    chk.floor("C06.c-clears", nclear, 1, "constant stores to irr_net_cum in transpiration")
 
 
 def summary_written_once(flow, nid) -> bool:
